@@ -38,6 +38,7 @@ ASSUMPTIONS = [
 DECIDING = [
     "get_sparse_operator", "hermitian_conjugated", "is_hermitian", "get_pauliop_from_matrix",
     "reverse_qubit_order", "get_expectation_value", "expectation", "reverse-twice-identity", "matrix-roundtrip",
+    "hermitian_conjugated:matrix", "is_hermitian:matrix",
 ]
 BRANCHES = ["get_sparse_operator:gap-identity", "get_sparse_operator:trailing-identity",
             "expectation:density-matrix", "expectation:row-vector", "expectation:column-vector"]
@@ -160,12 +161,43 @@ def _post_sparse(mon, call):
         mon.ok(hook)
 
 
+def _plain_matrix(x):
+    """square dense complex array of a scipy sparse matrix / numpy array operand (<= 2^MAXN), else None"""
+    import scipy.sparse
+
+    try:
+        if scipy.sparse.issparse(x):
+            A = np.asarray(x.toarray(), dtype=complex)
+        elif isinstance(x, np.ndarray):
+            A = np.asarray(x, dtype=complex)
+        else:
+            return None
+    except Exception:
+        return None
+    if A.ndim != 2 or A.shape[0] != A.shape[1] or A.shape[0] > 2 ** MAXN:
+        return None
+    return A
+
+
 def _post_hc(mon, call):
     hook = "hermitian_conjugated"
     op = _arg(call, 0, "operator")
     tl = _terms(op)
     if tl is None:
-        mon.out_of_domain(hook)
+        A = _plain_matrix(op)
+        if A is None:
+            mon.out_of_domain(hook)
+            return
+        # matrix operands (scipy sparse / numpy array): the conjugate transpose, entry by entry
+        if call.exc is not None:
+            mon.violation("conjugate-raises", f"hermitian_conjugated(<{type(op).__name__} {A.shape}>) raised {call.exc!r}")
+            return
+        R = _plain_matrix(call.result)
+        if R is None or R.shape != A.shape[::-1] or not np.array_equal(R, A.conj().T):
+            mon.violation("conjugate-wrong-matrix",
+                          f"hermitian_conjugated(<{type(op).__name__}> {A.tolist()!r}) = {None if R is None else R.tolist()!r}")
+        else:
+            mon.ok(hook + ":matrix")
         return
     if call.exc is not None:
         mon.violation("conjugate-raises", f"hermitian_conjugated({op!r}) raised {call.exc!r}")
@@ -193,6 +225,25 @@ def _post_ih(mon, call):
     op = _arg(call, 0, "operator")
     tl = _terms(op)
     T, S = _lib()
+    if tl is None and _plain_matrix(op) is not None:
+        A = _plain_matrix(op)
+        if call.exc is not None:
+            mon.violation("is-hermitian-raises", f"is_hermitian(<{type(op).__name__} {A.shape}>) raised {call.exc!r}")
+            return
+        anti = float(np.abs(A - A.conj().T).max()) if A.size else 0.0
+        if anti <= 1e-12:
+            expected = True
+        elif anti >= 1e-3:
+            expected = False
+        else:
+            mon.out_of_domain(hook)
+            return
+        if bool(call.result) != expected:
+            mon.violation("is-hermitian-disagrees-with-matrix",
+                          f"is_hermitian(<{type(op).__name__}> {A.tolist()!r}) is {call.result!r}; max |A - A^dagger| = {anti:.3e}")
+        else:
+            mon.ok(hook + ":matrix")
+        return
     if tl is None or (isinstance(op, S) and not _is_simplified(tl)):
         if tl is not None:
             mon.note("is_hermitian:operand-not-simplified")
@@ -595,6 +646,19 @@ def run_case(ctx):
         elif mode == "antisymmetrised":
             is_hermitian(op - hc)
         is_hermitian(hermitian_conjugated(hc))
+        # the same two questions asked of the operator's matrix (sparse and dense operands)
+        w = _spec_width(_as_list(spec))
+        if 1 <= w <= 4 and not _simplifies_to_nothing(_ref_terms(spec)) and not (isinstance(spec, list) and not spec):
+            M = get_sparse_operator(op, w)
+            for A in (M, np.asarray(M.toarray())):
+                hermitian_conjugated(A)
+                is_hermitian(A)
+            if mode in ("symmetrised", "antisymmetrised"):
+                M2 = get_sparse_operator(op + hc if mode == "symmetrised" else op - hc, w) \
+                    if not _simplifies_to_nothing(D.term_list(op + hc if mode == "symmetrised" else op - hc) or []) else None
+                if M2 is not None:
+                    is_hermitian(M2)
+                    is_hermitian(np.asarray(M2.toarray()))
         return
 
     if cls == "from_matrix":
